@@ -35,7 +35,7 @@ with subexprs_c (cs : cmps) : list expr :=
 with subexprs_p (ps : parts) : list expr :=
   match ps with PNil => [] | PLit _ r => subexprs_p r | PFmt e _ r => subexprs e ++ subexprs_p r end
 with subexprs_d (ds : dpairs) : list expr :=
-  match ds with DNil => [] | DCons k v r => subexprs k ++ subexprs v ++ subexprs_d r end
+  match ds with DNil => [] | DCons k v r => subexprs k ++ subexprs v ++ subexprs_d r | DStar e r => subexprs e ++ subexprs_d r end
 with subexprs_g (gs : gens) : list expr :=
   match gs with GNil => [] | GCons _ _ it ifs r => subexprs it ++ subexprs_l ifs ++ subexprs_g r end.
 
@@ -65,7 +65,11 @@ with inner_c (i : nat) (cs : cmps) : list nat :=
 with inner_p (i : nat) (ps : parts) : list nat :=
   match ps with PNil => [] | PLit _ r => inner_p i r | PFmt e _ r => inner_nodes i e ++ inner_p (i + size e) r end
 with inner_d (i : nat) (ds : dpairs) : list nat :=
-  match ds with DNil => [] | DCons k v r => inner_nodes i k ++ inner_nodes (i + size k) v ++ inner_d (i + size k + size v) r end.
+  match ds with
+  | DNil => []
+  | DCons k v r => inner_nodes i k ++ inner_nodes (i + size k) v ++ inner_d (i + size k + size v) r
+  | DStar e r => inner_nodes i e ++ inner_d (i + size e) r
+  end.
 
 Definition fstring_nodes (body : expr) : list nat :=
   flat_map (fun p => match snd p with EFStr ps => range (S (fst p)) (size_p ps) | _ => [] end)
@@ -134,7 +138,11 @@ with reprs_k (i : nat) (ks : kwds) (acc : lines) : lines :=
 with reprs_c (i : nat) (cs : cmps) (acc : lines) : lines :=
   match cs with CNil => acc | CCons _ e r => reprs_c (i + size e) r (reprs i e acc) end
 with reprs_d (i : nat) (ds : dpairs) (acc : lines) : lines :=
-  match ds with DNil => acc | DCons k v r => reprs_d (i + size k + size v) r (reprs (i + size k) v (reprs i k acc)) end
+  match ds with
+  | DNil => acc
+  | DCons k v r => reprs_d (i + size k + size v) r (reprs (i + size k) v (reprs i k acc))
+  | DStar e r => reprs_d (i + size e) r (reprs i e acc)
+  end
 with reprs_g (i : nat) (gs : gens) (acc : lines) : lines :=
   match gs with
   | GNil => acc
